@@ -105,7 +105,8 @@ fn strict_excluded(p: &str, fl: &Flags) -> Option<&'static str> {
 
 fn universe() -> Vec<String> {
     let hosts = ["a.b", "b.a.b", "ab.b", "a.b.a.b", "ba.b.a.b", "a.a", "xa.b", "b.a", "a.ba", "a.b.b"];
-    let paths = ["/", "/a", "/b", "/ab", "/a/b", "/a.b", "/b/a", "/a/", "/ba", "//a", "/a?b", "/a.b/a", "/b.a/b", "/a/b/", "/.a", "/a..b", "/aa/b."];
+    // (incl. the punctuation that is NOT a separator for '^': % _ - and the dot)
+    let paths = ["/", "/a", "/b", "/ab", "/a/b", "/a.b", "/b/a", "/a/", "/ba", "//a", "/a?b", "/a.b/a", "/b.a/b", "/a/b/", "/.a", "/a..b", "/aa/b.", "/a%b", "/a_b", "/a-b", "/b%", "/a%2fb", "/a=b", "/a&b", "/a:b"];
     let mut v = vec![];
     for h in hosts {
         for p in paths {
